@@ -109,8 +109,26 @@ func parseVersion2(reader *bufio.Reader) (header *Header, err error) {
 		state.ProxyErrInvalidHeader.Inc(1)
 		return nil, ErrUnsupportedProtocolVersionAndCommand
 	}
-	// If command is LOCAL, header ends here
+	// If command is LOCAL, the rest of the block (family, length and <length> bytes of
+	// addresses/TLVs) carries nothing for us, but it is part of the header and must be
+	// consumed. A bare 13-byte header with nothing behind it is still tolerated.
 	if header.Command.IsLocal() {
+		rest, _ := reader.Peek(3)
+		if len(rest) == 0 {
+			return header, nil
+		}
+		if len(rest) < 3 {
+			state.ProxyErrReadHeader.Inc(1)
+			return nil, ErrCantReadLength
+		}
+		skip := 3 + int(binary.BigEndian.Uint16(rest[1:3]))
+		if _, err := reader.Peek(skip); err != nil {
+			state.ProxyErrReadHeader.Inc(1)
+			return nil, ErrInvalidLength
+		}
+		for i := 0; i < skip; i++ {
+			reader.ReadByte()
+		}
 		return header, nil
 	}
 
